@@ -315,13 +315,13 @@ func ruleDoUniqueIndex(c *Ctx, r *R) {
 				// the bound may be tested in the worker before it hands the index to a helper that calls f
 				for _, site := range di.calls {
 					for _, gd := range guardsOf(site.Block()) {
-						if cf, ok := gd.asCmp(); ok && cf.op == token.LSS && isIdxLeaf(cf.x) {
-							bounded = true
+						if cf, ok := gd.asCmp(); ok && ((cf.op == token.LSS && isIdxLeaf(cf.x)) || (cf.op == token.GTR && isIdxLeaf(cf.y))) {
+							bounded = true // i < n, or written the other way round: n > i
 						}
 					}
 				}
 				for _, gd := range guardsOf(call.Block()) {
-					if cf, ok := gd.asCmp(); ok && cf.x == idx && cf.op == token.LSS {
+					if cf, ok := gd.asCmp(); ok && ((cf.x == idx && cf.op == token.LSS) || (cf.y == idx && cf.op == token.GTR)) {
 						bounded = true
 					}
 					// the claim helper reports `index < n` through its boolean result
@@ -337,7 +337,7 @@ func ruleDoUniqueIndex(c *Ctx, r *R) {
 										}
 										any = true
 										bo, ok := returnedValue(ret, ex.Index).(*ssa.BinOp)
-										if !ok || bo.Op != token.LSS || !isIdxLeaf(bo.X) {
+										if !ok || !((bo.Op == token.LSS && isIdxLeaf(bo.X)) || (bo.Op == token.GTR && isIdxLeaf(bo.Y))) {
 											if kc, isK := returnedValue(ret, ex.Index).(*ssa.Const); isK && kc.Value != nil && kc.Value.String() == "false" {
 												return
 											}
@@ -351,6 +351,31 @@ func ruleDoUniqueIndex(c *Ctx, r *R) {
 							}
 						}
 					}
+				}
+				// the index is the parameter of a literal that a driver of the package calls with each claimed index
+				// (claimEach(&x, n, func(i int) error {...})): the bound is tested by the driver before it calls the literal
+				if prm, isP := stripConv(idx).(*ssa.Parameter); isP && !bounded && prm.Parent() != nil && prm.Parent().Parent() != nil {
+					pidx := -1
+					for k, q := range prm.Parent().Params {
+						if q == prm {
+							pidx = k
+						}
+					}
+					sites := closureCallSites(prm.Parent())
+					all := len(sites) > 0 && pidx >= 0
+					for _, cs := range sites {
+						okSite := false
+						if pidx < len(cs.inner.Call.Args) {
+							arg := cs.inner.Call.Args[pidx]
+							for _, gd := range guardsOf(cs.inner.Block()) {
+								if cf, ok := gd.asCmp(); ok && ((cf.op == token.LSS && (cf.x == arg || isIdxLeaf(cf.x))) || (cf.op == token.GTR && (cf.y == arg || isIdxLeaf(cf.y)))) {
+									okSite = true
+								}
+							}
+						}
+						all = all && okSite
+					}
+					bounded = all
 				}
 				r.ok(bounded, name+"|worker-index-below-n", call.Pos(), "f must be called only under i < n for the claimed index")
 			}
@@ -532,24 +557,30 @@ func ruleDoBounded(c *Ctx, r *R) {
 					continue
 				}
 				env := provEnv{chain: d.calls}
-				xs, ys := symOf(bin.X, env), symOf(bin.Y, env)
-				// the tested value is the parallelism parameter or the value derived from it so far (a merge with its default)
-				isP := xs.String() == pn
-				if !isP {
-					for _, lf := range valueLeaves(bin.X, d.calls, 0) {
-						if lf.v == ssa.Value(pPar) {
-							isP = true
+				// the tested value is the parallelism parameter or the value derived from it so far (a merge with its default);
+				// the test may be written either way round (parallelism > n / n < parallelism)
+				for _, side := range []struct {
+					x, y ssa.Value
+					op   token.Token
+				}{{bin.X, bin.Y, bin.Op}, {bin.Y, bin.X, flip(bin.Op)}} {
+					xs, ys := symOf(side.x, env), symOf(side.y, env)
+					isP := xs.String() == pn
+					if !isP {
+						for _, lf := range valueLeaves(side.x, d.calls, 0) {
+							if lf.v == ssa.Value(pPar) {
+								isP = true
+							}
 						}
 					}
-				}
-				if !isP {
-					continue
-				}
-				if bin.Op == token.GTR && ys.String() == nn {
-					clamp = true
-				}
-				if bin.Op == token.LEQ && ys.isConst(0) {
-					dflt = true
+					if !isP {
+						continue
+					}
+					if side.op == token.GTR && ys.String() == nn {
+						clamp = true
+					}
+					if side.op == token.LEQ && ys.isConst(0) {
+						dflt = true
+					}
 				}
 			}
 			if minClamp {
@@ -685,6 +716,27 @@ func ruleDoErrorContract(c *Ctx, r *R) {
 					// handed up unconditionally: the caller decides
 					if len(chain) > 0 && flows(chain[len(chain)-1], chain[:len(chain)-1]) {
 						return true
+					}
+					// ... the caller being a driver of the package that was handed this literal (claimEach(&x, n, func(i int) error
+					// { ...; return f(ctx, i) })): the driver's call of its parameter carries the error on, and the driver's own
+					// result must in turn be what the frame that called the driver returns
+					if len(chain) == 0 && v.Parent().Parent() != nil {
+						for _, cs := range closureCallSites(v.Parent()) {
+							if !flows(cs.inner, []*ssa.Call{cs.outer}) {
+								continue
+							}
+							handedUp := false
+							instrs(cs.outer.Parent(), func(_ *ssa.BasicBlock, _ int, in ssa.Instruction) {
+								if ret, ok := in.(*ssa.Return); ok && len(ret.Results) > 0 {
+									if rv := returnedValue(ret, 0); rv == ssa.Value(cs.outer) || phiCarries(rv, cs.outer) {
+										handedUp = true
+									}
+								}
+							})
+							if handedUp {
+								return true
+							}
+						}
 					}
 				}
 				return false
